@@ -46,7 +46,10 @@ extern vp_iface  vp_ifaces[VP_MAX_IFACE];
 extern vp_global vp_glob;
 extern uint64_t  vp_clock_ms;
 extern uint8_t   vp_poison;
-extern FILE     *vp_out;
+#ifndef VP_TL
+#define VP_TL            /* -DVP_TL=__thread: every mutable object of the port becomes thread-local (steady-state TSan run) */
+#endif
+extern VP_TL FILE *vp_out;
 
 void   vp_reset_faults(void);
 void   vp_fail_malloc_at(unsigned long k);   /* k-th core malloc from now (1-based) */
@@ -64,13 +67,13 @@ void   vp_hex(FILE *f, const uint8_t *p, size_t n);
 void  *vp_raw_alloc(size_t n);
 void   vp_raw_free(void *p);
 /* observe sizes of core allocations (for the extractor) */
-extern size_t vp_last_malloc_sizes[16];
-extern unsigned vp_last_malloc_n;
+extern VP_TL size_t vp_last_malloc_sizes[16];
+extern VP_TL unsigned vp_last_malloc_n;
 
 /* frames transmitted during the current / previous op (for `relay`) */
 struct vp_txrec { int iface; uint8_t *data; size_t len; };
-extern struct vp_txrec vp_prev_tx[], vp_cur_tx[];
-extern unsigned vp_prev_tx_n, vp_cur_tx_n;
+extern VP_TL struct vp_txrec vp_prev_tx[], vp_cur_tx[];
+extern VP_TL unsigned vp_prev_tx_n, vp_cur_tx_n;
 void vp_rotate_tx(void);
 
 #endif
